@@ -6,6 +6,8 @@
  * file, you can obtain one at https://mozilla.org/MPL/2.0/.
  */
 
+#include <vector>
+
 #include "cdns_decoder.h"
 
 CDNS::CborType CDNS::CdnsDecoder::peek_type()
@@ -187,78 +189,101 @@ void CDNS::CdnsDecoder::read_break()
 
 void CDNS::CdnsDecoder::skip_item()
 {
-    CborType cbor_type;
-    uint8_t item_length;
-    read_cbor_type(cbor_type, item_length);
+    // Nesting of the skipped item is tracked on heap instead of call stack (the depth is given by input data).
+    // Every level holds the number of data items still to be skipped on it, indefinite-length arrays and maps
+    // are skipped up to their "break".
+    struct Level {
+        uint64_t items_left;
+        bool indef;
+    };
 
-    switch (cbor_type) {
-        case CborType::UNSIGNED:
-        case CborType::NEGATIVE:
-            if (item_length >= 28) {
-                throw CdnsDecoderException(("Unsupported CBOR additional information value: " +
-                                            std::to_string(item_length)).c_str());
-            }
-            read_int(item_length);
-            break;
+    std::vector<Level> levels;
+    levels.push_back({1, false});
 
-        case CborType::TAG:
-            if (item_length >= 28) {
-                throw CdnsDecoderException(("Unsupported CBOR additional information value: " +
-                                            std::to_string(item_length)).c_str());
-            }
-            read_int(item_length);
-            // Tag is one data item together with its content
-            skip_item();
-            break;
+    while (!levels.empty()) {
+        Level& level = levels.back();
 
-        case CborType::SIMPLE:
-            if (item_length >= 28 && item_length <= 30) {
-                throw CdnsDecoderException(("Unsupported CBOR additional information value: " +
-                                            std::to_string(item_length)).c_str());
+        if (level.indef) {
+            if (peek_type() == CborType::BREAK) {
+                m_p++;
+                levels.pop_back();
+                continue;
             }
-            read_int(item_length);
-            break;
+        }
+        else if (level.items_left == 0) {
+            levels.pop_back();
+            continue;
+        }
+        else {
+            level.items_left--;
+        }
 
-        case CborType::BYTE_STRING:
-        case CborType::TEXT_STRING:
-            if (item_length >= 28 && item_length <= 30) {
-                throw CdnsDecoderException(("Unsupported CBOR additional information value: " +
-                                            std::to_string(item_length)).c_str());
-            }
-            read_string(cbor_type, read_int(item_length), item_length == 31 ? true : false);
-            break;
+        CborType cbor_type;
+        uint8_t item_length;
+        read_cbor_type(cbor_type, item_length);
 
-        case CborType::ARRAY:
-        case CborType::MAP:
-            if (item_length >= 28 && item_length <= 30) {
-                throw CdnsDecoderException(("Unsupported CBOR additional information value: " +
-                                            std::to_string(item_length)).c_str());
-            }
-            if (item_length == 31) {
-                while(true) {
-                    if (peek_type() == CborType::BREAK) {
-                        m_p++;
-                        break;
+        switch (cbor_type) {
+            case CborType::UNSIGNED:
+            case CborType::NEGATIVE:
+                if (item_length >= 28) {
+                    throw CdnsDecoderException(("Unsupported CBOR additional information value: " +
+                                                std::to_string(item_length)).c_str());
+                }
+                read_int(item_length);
+                break;
+
+            case CborType::TAG:
+                if (item_length >= 28) {
+                    throw CdnsDecoderException(("Unsupported CBOR additional information value: " +
+                                                std::to_string(item_length)).c_str());
+                }
+                read_int(item_length);
+                // Tag is one data item together with its content
+                levels.push_back({1, false});
+                break;
+
+            case CborType::SIMPLE:
+                if (item_length >= 28 && item_length <= 30) {
+                    throw CdnsDecoderException(("Unsupported CBOR additional information value: " +
+                                                std::to_string(item_length)).c_str());
+                }
+                read_int(item_length);
+                break;
+
+            case CborType::BYTE_STRING:
+            case CborType::TEXT_STRING:
+                if (item_length >= 28 && item_length <= 30) {
+                    throw CdnsDecoderException(("Unsupported CBOR additional information value: " +
+                                                std::to_string(item_length)).c_str());
+                }
+                read_string(cbor_type, read_int(item_length), item_length == 31 ? true : false);
+                break;
+
+            case CborType::ARRAY:
+            case CborType::MAP:
+                if (item_length >= 28 && item_length <= 30) {
+                    throw CdnsDecoderException(("Unsupported CBOR additional information value: " +
+                                                std::to_string(item_length)).c_str());
+                }
+                if (item_length == 31) {
+                    levels.push_back({0, true});
+                }
+                else {
+                    uint64_t item_count = read_int(item_length);
+                    if (cbor_type == CborType::MAP) {
+                        if (item_count > UINT64_MAX / 2)
+                            throw CdnsDecoderException("Map is too large");
+                        item_count *= 2;
                     }
-                    skip_item();
-                    if (cbor_type == CborType::MAP)
-                        skip_item();
+                    levels.push_back({item_count, false});
                 }
-            }
-            else {
-                uint64_t item_count = read_int(item_length);
-                for (unsigned i = 0; i < item_count; i++) {
-                    skip_item();
-                    if (cbor_type == CborType::MAP)
-                        skip_item();
-                }
-            }
-            break;
+                break;
 
-        default:
-            throw CdnsDecoderException(("Unknown CBOR major type " +
-                                        std::to_string(static_cast<uint8_t>(cbor_type) >> 5)).c_str());
-            break;
+            default:
+                throw CdnsDecoderException(("Unknown CBOR major type " +
+                                            std::to_string(static_cast<uint8_t>(cbor_type) >> 5)).c_str());
+                break;
+        }
     }
 }
 
